@@ -476,12 +476,35 @@ def kernel_table(r, known, tier="thorough"):
         stats = emit_facts(dumps, pairs, excluded)
     except Exception as e:
         return {"status": "failed", "why": "emitting the facts: %r" % (e,)}
+    import signal
+
+    class _P:   # result holder
+        pass
+    p = _P()
+    timed_out = False
+    # own process group, so that on a timeout exactly OUR lake/lean processes are stopped (a pattern kill would
+    # also hit another verif tree's build of the same module)
+    proc = subprocess.Popen(["lake", "build", "Properties.C12Table"], cwd=LEAN, stdout=subprocess.PIPE,
+                            stderr=subprocess.STDOUT, text=True, start_new_session=True)
     try:
-        p = subprocess.run(["lake", "build", "Properties.C12Table"], cwd=LEAN, stdout=subprocess.PIPE, stderr=subprocess.STDOUT,
-                           text=True, timeout=KERNEL_BUDGET_S[tier])
+        out, _ = proc.communicate(timeout=KERNEL_BUDGET_S[tier])
+        p.returncode, p.stdout = proc.returncode, out
     except subprocess.TimeoutExpired:
-        subprocess.run(["pkill", "-f", "Properties/C12Table.lean"])
-        subprocess.run(["pkill", "-f", "Gen/SchemaFacts.lean"])
+        timed_out = True
+        try:
+            os.killpg(proc.pid, signal.SIGTERM)
+        except OSError:
+            pass
+        try:
+            proc.communicate(timeout=20)
+        except subprocess.TimeoutExpired:
+            try:
+                os.killpg(proc.pid, signal.SIGKILL)
+            except OSError:
+                pass
+    if not timed_out and p.returncode != 0 and ("exited with code 143" in p.stdout or "exited with code 137" in p.stdout):
+        timed_out = True     # the build was stopped from outside (e.g. memory pressure): not a verdict of the kernel
+    if timed_out:
         return dict(stats, status="skipped",
                     why="the emitted facts differ from the last ones the kernel closed, and re-closing C12_table exceeded the %s-tier "
                         "budget of %d s (reported, not silent; the compiled schemaEq decided every pair this run)" % (tier, KERNEL_BUDGET_S[tier]),
